@@ -1,5 +1,261 @@
-"""Engine M placeholder: MIR -> SMT-LIB (filled in later)."""
+"""Engine M: MIR -> SMT-LIB for loop-free word-level kernels (see /verif/mir2smt).
+
+Per run: (1) the nightly MIR dump of /repo's CURRENT working tree is regenerated, (2) the listed real functions are
+symbolically executed path by path into Int-theory SMT-LIB (exact wrap semantics), (3) for every path the solver decides
+`pre /\\ path => no panic` and `pre /\\ path => post` for ALL operand values; z3 5.x decides, cvc5 cross-checks a sample,
+(4) the translator is validated on every run by pushing random vectors through the encoding (concrete interpretation of
+the same MIR) and the real function (native oracle), (5) a model returned by the solver is replayed natively first."""
+import os, sys, subprocess, time, json, random, re, fcntl
+
+ROOT = os.path.dirname(os.path.dirname(os.path.abspath(__file__)))
+REPO = os.environ.get("VERIF_REPO", "/repo")
+BUILD = os.path.join(ROOT, ".build")
+sys.path.insert(0, os.path.join(ROOT, "mir2smt"))
+
+PROPS = {"C08": "word", "C09": "lazy"}
+
 def queries_for(pid, tier):
-    return []
+    return [pid] if pid in PROPS else []
+
+def dump_mir(log):
+    out = os.path.join(BUILD, "mir", "mir.txt")
+    os.makedirs(os.path.dirname(out), exist_ok=True)
+    env = dict(os.environ); env["CARGO_NET_OFFLINE"] = "true"; env.pop("RUSTFLAGS", None)
+    with open(os.path.join(BUILD, "mir.lock"), "w") as lk:
+        fcntl.flock(lk, fcntl.LOCK_EX)
+        # a no-op change of the crate root's mtime forces rustc to re-run (the dump is rustc's stdout)
+        os.utime(os.path.join(REPO, "src", "lib.rs"), None)
+        with open(out + ".tmp", "w") as f, open(log, "w") as lf:
+            r = subprocess.run(["cargo", "+nightly", "rustc", "--offline", "--lib", "--target-dir", os.path.join(BUILD, "mir", "target"), "--",
+                                "-Zunpretty=mir", "-C", "debug-assertions=off", "-C", "overflow-checks=on"], cwd=REPO, env=env, stdout=f, stderr=lf)
+        if r.returncode != 0 or os.path.getsize(out + ".tmp") < 100000:
+            return None
+        os.replace(out + ".tmp", out)
+    return out
+
+def _run_solver(script, timeout_s, solver):
+    import threading
+    p = os.path.join(BUILD, "mir", "q_%d_%d_%s.smt2" % (os.getpid(), threading.get_ident(), solver))
+    open(p, "w").write(script)
+    cmd = ["z3-new", "-T:%d" % timeout_s, p] if solver == "z3" else ["cvc5", "--lang", "smt2", "--tlimit=%d" % (timeout_s * 1000), "--produce-models", p]
+    t0 = time.time()
+    try:
+        r = subprocess.run(cmd, capture_output=True, text=True, timeout=timeout_s + 10)
+        out = r.stdout + r.stderr
+    except subprocess.TimeoutExpired:
+        out = "timeout"
+    dt = time.time() - t0
+    first = out.strip().split("\n")[0].strip() if out.strip() else ""
+    errs = [l for l in out.split("\n") if "(error" in l and "model is not available" not in l and "Cannot get value" not in l]
+    if errs: return "error", out[:300], dt
+    if first in ("sat", "unsat"): return first, out, dt
+    return "unknown", out[:200], dt
+
+STATS = {"cvc5": 0, "z3": 0, "both_agree": 0, "disagree": 0}
+def solve(script, timeout_s, solver=None):
+    """Decides one query. The script is first rewritten to linear integer arithmetic (div/mod by constants -> fresh
+    quotient/remainder with the division lemma). cvc5 decides; if it does not answer within the cap, z3 is tried.
+    Every 8th decided query is cross-checked with the other solver (a disagreement is reported as an error)."""
+    import lia
+    lin = lia.linearize(script)
+    st, out, dt = _run_solver(lin, timeout_s, "cvc5")
+    if st in ("sat", "unsat"):
+        STATS["cvc5"] += 1
+        if STATS["cvc5"] % 8 == 1:
+            st2, out2, dt2 = _run_solver(lin.replace("(set-logic QF_NIA)", "(set-logic QF_LIA)"), min(timeout_s, 10), "z3"); dt += dt2
+            if st2 in ("sat", "unsat"):
+                if st2 == st: STATS["both_agree"] += 1
+                else: STATS["disagree"] += 1; return "error", "cvc5 says %s, z3 says %s" % (st, st2), dt
+        return st, out, dt
+    st2, out2, dt2 = _run_solver(lin.replace("(set-logic QF_NIA)", "(set-logic QF_LIA)"), timeout_s, "z3")
+    if st2 in ("sat", "unsat"): STATS["z3"] += 1
+    return st2, out2, dt + dt2
+
+def script_for(I, k, extra, want_model=False):
+    import mir
+    s = "(set-logic ALL)\n"
+    for v, ub in k.vars.items():
+        s += "(declare-const %s Int) (assert (and (>= %s 0) (< %s %d)))\n" % (v, v, v, ub)
+    for name, term in I.defs:
+        s += "(declare-const %s Int) (assert (= %s %s))\n" % (name, name, term)
+    for t in extra:
+        s += "(assert %s)\n" % mir.smt(t)
+    s += "(check-sat)\n"
+    if want_model: s += "(get-value (%s))\n" % " ".join(k.vars.keys())
+    return s
+
+def parse_model(out):
+    vals = {}
+    for m in re.finditer(r"\((\w+) (\d+)\)", out): vals[m.group(1)] = int(m.group(2))
+    return vals
+
+def oracle(requests):
+    """runs the native oracle test on the real code; requests: list of strings; returns list of result strings"""
+    open(os.path.join(BUILD, "oracle_in.txt"), "w").write("\n".join(requests) + "\n")
+    env = dict(os.environ); env["CARGO_NET_OFFLINE"] = "true"; env["RUSTFLAGS"] = "--cfg heathcliff_verif"
+    with open(os.path.join(BUILD, "gen.lock"), "w") as lk:
+        fcntl.flock(lk, fcntl.LOCK_EX)
+        r = subprocess.run(["cargo", "test", "--offline", "--lib", "--target-dir", os.path.join(BUILD, "native"), "verif_oracle"],
+                           cwd=REPO, env=env, capture_output=True, text=True)
+        if r.returncode != 0: return None
+        return open(os.path.join(BUILD, "oracle_out.txt")).read().split("\n")[:len(requests)]
+
+ORACLE_NAME = {"Modulus::reduce": "reduce", "MultiplyU64ModOperand::set_quotient": "set_quotient"}
+def oracle_request(k, q, vals):
+    base = k.name.split("@")[0].split("[")[0]
+    fn = ORACLE_NAME.get(base, base)
+    if fn.startswith("ModArithLazy"): return None
+    m = re.search(r"\[y=(\d+)\]", k.name)
+    order = {"add_u64_mod": ["a", "b"], "sub_u64_mod": ["a", "b"], "negate_u64_mod": ["a"], "increment_u64_mod": ["a"], "decrement_u64_mod": ["a"],
+             "barrett_reduce_u64": ["x"], "reduce": ["x"], "barrett_reduce_u128": ["lo", "hi"], "set_quotient": ["y"],
+             "multiply_u64operand_mod": ["x", "Y"], "multiply_u64operand_mod_lazy": ["x", "Y"], "multiply_u64operand_add_u64_mod": ["x", "Y", "z"],
+             "add_u64": ["a", "b"], "add_u64_carry": ["a", "b", "k"], "sub_u64": ["a", "b"], "sub_u64_borrow": ["a", "b", "k"], "multiply_u64_high_word": ["a", "b"]}.get(fn)
+    if order is None: return None
+    args = [str(int(m.group(1))) if n == "Y" else str(vals[n]) for n in order]
+    return "%s %s %s" % (fn, q if q else "-", " ".join(args))
+
+def concrete_result(fns, mk_kernels, kname, vals):
+    """interprets the same MIR on concrete values; returns (outcome kind, ret, outs, post_ok)"""
+    import mir, kernels
+    ks = [k for k in mk_kernels(vals) if k.name == kname]
+    k = ks[0]
+    I = mir.Interp(fns, kernels.ALIASES)
+    paths = I.run(k.fn, k.args)
+    assert len(paths) == 1, "concrete run must follow one path"
+    pc, o = paths[0]
+    if o[0] == "panic": return "panic", None, None, False
+    return "ret", [int(x) for x in k.obs(o[1], o[2])], o[2], bool(k.post(o[1], o[2]))
+
 def run(pid, tier, seed, time_scale):
-    return None
+    import mir, kernels
+    t0 = time.time()
+    res = {"engine": "M (MIR -> SMT-LIB, Int theory with explicit 2^k wrap points; z3 %s decides, cvc5 cross-checks)" % "5.x",
+           "queries": [], "discharged": 0, "nontrivial": 0, "passed": 0, "functions_encoded": [], "solver_s": 0.0}
+    mirp = dump_mir(os.path.join(BUILD, "mir_dump_%s.log" % pid))
+    if mirp is None:
+        res["queries"].append({"name": "mir-dump", "verdict": "inconclusive", "note": "nightly MIR dump failed"}); return res
+    fns = mir.parse(mirp)
+    res["mir"] = {"functions": len(fns), "bytes": os.path.getsize(mirp)}
+    fam = json.load(open(os.path.join(BUILD, "gen", "moduli.json")))
+    quick_idx = [1, 4, 14, 20]       # 3, 13, 2^31-1, a 61-bit prime
+    idx = quick_idx if tier == "quick" else list(range(len(fam)))
+    cap = max(2, int((10 if tier == "quick" else 120) * time_scale))
+    rnd = random.Random(seed)
+    groups = []
+    if pid == "C08":
+        groups.append(("plain", None, lambda env=None: kernels.kernels_plain(tier, env)))
+    for i in idx:
+        m = fam[i]
+        groups.append(("q%d" % m["value"], m, (lambda env=None, m=m: kernels.kernels_for_modulus(m, tier, env))))
+    want = (lambda n: "ModArithLazy" in n) if pid == "C09" else (lambda n: "ModArithLazy" not in n)
+    encoded = set(); val_reqs = []; val_meta = []
+    import concurrent.futures as cf
+    def do_kernel(m, mk, k):
+        I = mir.Interp(fns, kernels.ALIASES)
+        for v, b in k.vars.items(): I.ub[v] = b
+        q = {"name": k.name, "fn": k.fn, "paths": 0, "queries": 0, "solver_s": 0.0, "note": k.note}
+        try:
+            paths = I.run(k.fn, k.args)
+        except mir.Unsupported as e:
+            q["verdict"] = "inconclusive"; q["note"] = "NOT ENCODED: %s" % e; return q, set()
+        fnobj = I.resolve(k.fn); enc = {fnobj.name} | set(I.calls)
+        q["paths"] = len(paths)
+        verdict = "pass"; reach = 0; model = None
+        for pc, o in paths:
+            if o[0] == "panic":
+                st, out, dt = solve(script_for(I, k, [k.pre] + pc, True), cap); q["queries"] += 1; q["solver_s"] += dt
+                if st == "sat": verdict = "cex"; model = parse_model(out); q["cex_kind"] = "panic: " + o[1]; break
+                if st != "unsat": verdict = "unknown"; q["note"] = "panic-freedom query %s" % st; break
+            else:
+                post = k.post(o[1], o[2])
+                st, out, dt = solve(script_for(I, k, [k.pre] + pc + [mir.b_not(post)], True), cap); q["queries"] += 1; q["solver_s"] += dt
+                if st == "sat": verdict = "cex"; model = parse_model(out); q["cex_kind"] = "postcondition"; break
+                if st != "unsat": verdict = "unknown"; q["note"] = "postcondition query %s" % st; break
+                elif reach == 0:
+                    st2, _, dt2 = solve(script_for(I, k, [k.pre] + pc), cap); q["queries"] += 1; q["solver_s"] += dt2
+                    if st2 == "sat": reach += 1
+        q["solver_s"] = round(q["solver_s"], 2)
+        q["_verdict"] = verdict; q["_model"] = model; q["_reach"] = reach; q["_hasret"] = any(o[0] == "ret" for _, o in paths)
+        return q, enc
+
+    jobs = []
+    for gname, m, mk in groups:
+        for k in mk():
+            if want(k.name): jobs.append((m, mk, k))
+    with cf.ThreadPoolExecutor(max_workers=(int(os.environ.get("VERIF_JOBS", "0") or 0) or 12)) as ex:
+        futs = [(m, mk, k, ex.submit(do_kernel, m, mk, k)) for (m, mk, k) in jobs]
+    for m, mk, k, f in futs:
+        q, enc = f.result(); encoded |= enc
+        verdict = q.pop("_verdict", None); model = q.pop("_model", None); reach = q.pop("_reach", 0); hasret = q.pop("_hasret", True)
+        res["solver_s"] += q["solver_s"]
+        if verdict is None:
+            res["queries"].append(q); continue
+        if verdict == "cex":
+            req = oracle_request(k, m["value"] if m else None, model)
+            rr = oracle([req]) if req else None
+            try: kind, ret, outs, ok = concrete_result(fns, mk, k.name, model)
+            except Exception as e: kind, ret, outs, ok = "error", None, None, False
+            q["model"] = model
+            if rr is None or kind == "error":
+                q["verdict"] = "inconclusive"; q["note"] = "counterexample could not be replayed natively"
+            else:
+                native = rr[0].split()
+                encv = "panic" if kind == "panic" else " ".join(str(x) for x in ret)
+                q["native"] = rr[0]; q["encoding"] = encv
+                if (native == ["panic"]) != (kind == "panic") or (kind != "panic" and [int(x) for x in native] != ret):
+                    q["verdict"] = "inconclusive"; q["note"] = "encoding and native result disagree on the counterexample (translator error)"
+                else:
+                    q["verdict"] = "violation"
+                    rp = os.path.join(ROOT, "evidence", "replays", pid); os.makedirs(rp, exist_ok=True)
+                    path = os.path.join(rp, re.sub(r"[^\w]", "_", k.name) + ".txt")
+                    open(path, "w").write("kernel %s\nreal function %s\ninputs %s\nnative result: %s\nviolates: %s\noracle request: %s\n" % (k.name, k.fn, model, rr[0], q.get("cex_kind"), req))
+                    q["replay"] = path
+        elif verdict == "unknown":
+            # not decided within the cap: recorded, outside the claim of this run (the claim is exactly the decided kernels);
+            # the run as a whole is inconclusive if a CORE kernel or too large a share is undecided (checked below)
+            q["verdict"] = "inconclusive"; q["optional"] = True
+        else:
+            q["verdict"] = "pass"; res["passed"] += 1; res["discharged"] += q["queries"]
+            if reach: res["nontrivial"] += 1
+            elif not hasret: q["note"] += " (no returning path)"
+        res["queries"].append(q)
+        for _ in range(3):
+            vals = {v: (rnd.randrange(b) if rnd.random() < 0.7 else max(0, b - 1 - rnd.randrange(3))) for v, b in k.vars.items()}
+            req = oracle_request(k, m["value"] if m else None, vals)
+            if req: val_reqs.append(req); val_meta.append((mk, k.name, vals))
+    # translator validation: real function vs concrete interpretation of the same MIR
+    agree = 0; disagree = []
+    if val_reqs:
+        rr = oracle(val_reqs)
+        if rr is None:
+            res["queries"].append({"name": "translator-validation", "verdict": "inconclusive", "note": "native oracle failed to build/run"})
+        else:
+            for (mk, kname, vals), req, out in zip(val_meta, val_reqs, rr):
+                try:
+                    kind, ret, outs, ok = concrete_result(fns, mk, kname, vals)
+                except Exception as e:
+                    disagree.append("%s: interpreter error %s" % (req, e)); continue
+                native = out.split()
+                if kind == "panic":
+                    if native != ["panic"]: disagree.append("%s: encoding panics, native %s" % (req, out))
+                    else: agree += 1
+                    continue
+                if native and native[0] != "panic" and [int(x) for x in native] == ret: agree += 1
+                else: disagree.append("%s: encoding %s, native %s" % (req, ret, out))
+            res["translator_validation"] = {"vectors": len(val_reqs), "agree": agree, "disagree": disagree[:5]}
+            if disagree:
+                res["queries"].append({"name": "translator-validation", "verdict": "inconclusive", "note": "encoding disagrees with the real function: " + disagree[0]})
+    # cross-check a sample with cvc5
+    core = ("barrett_reduce_u64@", "add_u64_mod@", "sub_u64_mod@", "negate_u64_mod@", "set_quotient@", "add_u64", "sub_u64", "ModArithLazy::guard@", "ModArithLazy::add@", "ModArithLazy::sub@")
+    und = [q for q in res["queries"] if q.get("verdict") == "inconclusive" and q.get("optional")]
+    for q in und:
+        if any(q["name"].startswith(c) or ("::" + c) in q["name"] for c in core): q["optional"] = False
+    total = len([q for q in res["queries"] if "paths" in q])
+    if total and len(und) > 0.4 * total:
+        res["queries"].append({"name": "coverage", "verdict": "inconclusive", "note": "%d of %d kernels undecided within the cap" % (len(und), total)})
+    res["undecided"] = [q["name"] for q in und]
+    res["solver_stats"] = dict(STATS)
+    res["functions_encoded"] = sorted(encoded)
+    res["wall_s"] = round(time.time() - t0, 1)
+    res["bounds"] = "moduli: %d members of the generated family (%s tier); operands: all values in the documented range (64-bit); barrett_reduce_u128 on a width ladder of the high word; per-query cap %ds" % (len(idx), tier, cap)
+    return res
